@@ -1,4 +1,5 @@
 import PgsVerif.Props.C03
+import PgsVerif.Props.C08
 import PgsVerif.Proofs.Clos
 import PgsVerif.Proofs.DeclFacts
 import PgsVerif.Proofs.MethodsNodup
@@ -228,5 +229,193 @@ theorem C04_method_imports (w : World) (hv : Valid w) (g : Graph) (hg : hydrate 
   intro x hx
   obtain ⟨r, i, o⟩ := x
   simp only [methodImports, C03_method_io w hv g hg _ hx]
+
+end Pgs.AST
+
+/-! ### the imports of a field are "the other files defining the types it references" -/
+namespace Pgs.AST
+
+theorem mem_declFrom : ∀ (fs : List FileD) (n : Nat) (d : Decl), d ∈ declFrom n fs →
+    ∃ k f, fs[k]? = some f ∧ d ∈ declFile (n + k) f := by
+  intro fs
+  induction fs with
+  | nil => intro n d hd; simp [declFrom] at hd
+  | cons f fs ih =>
+    intro n d hd
+    simp only [declFrom, List.mem_append] at hd
+    rcases hd with hd | hd
+    · exact ⟨0, f, rfl, by simpa using hd⟩
+    · obtain ⟨k, f', hk, hm⟩ := ih (n+1) d hd
+      have e : n + (k + 1) = n + 1 + k := by omega
+      exact ⟨k+1, f', by simpa using hk, by rw [e]; exact hm⟩
+
+/-- only the file's own declaration has kind `file` -/
+def NotFile (d : Decl) : Prop := d.kind ≠ .file
+
+theorem declEnums_notFile {fi : Nat} {sc : String} {p : List Nat} {tag : Nat} {es : List EnumD} :
+    ∀ d ∈ declEnums fi sc p tag es, NotFile d := by
+  intro d hd
+  simp only [declEnums, List.mem_flatten, List.mem_map] at hd
+  obtain ⟨l, ⟨⟨i, e⟩, _, rfl⟩, hd⟩ := hd
+  simp only [declEnum, List.mem_cons, List.mem_map] at hd
+  rcases hd with rfl | ⟨⟨j, v⟩, _, rfl⟩ <;> simp [NotFile]
+
+theorem declFields_notFile {fi : Nat} {sc : String} {p : List Nat} {tag : Nat} {k : Kind} {fs : List FieldD} (hk : k ≠ .file) :
+    ∀ d ∈ declFields fi sc p tag k fs, NotFile d := by
+  intro d hd
+  simp only [declFields, List.mem_map] at hd
+  obtain ⟨⟨i, f⟩, _, rfl⟩ := hd
+  exact hk
+
+theorem declOneofs_notFile {fi : Nat} {sc : String} {p : List Nat} {os : List String} :
+    ∀ d ∈ declOneofs fi sc p os, NotFile d := by
+  intro d hd
+  simp only [declOneofs, List.mem_map] at hd
+  obtain ⟨⟨i, f⟩, _, rfl⟩ := hd
+  simp [NotFile]
+
+theorem declMsgs_notFile {fi : Nat} : ∀ (ms : Msgs) (sc : String) (p : List Nat) (tag i : Nat),
+    ∀ d ∈ declMsgs fi sc p tag i ms, NotFile d := by
+  intro ms
+  induction ms with
+  | nil => intro sc p tag i d hd; simp [declMsgs] at hd
+  | cons h nested rest ih1 ih2 =>
+    intro sc p tag i
+    simp only [declMsgs, List.cons_append, List.forall_mem_cons, List.forall_mem_append]
+    exact ⟨by simp [NotFile], ⟨⟨⟨⟨declEnums_notFile, ih1 _ _ _ _⟩, declOneofs_notFile⟩,
+      declFields_notFile (by decide)⟩, declFields_notFile (by decide)⟩, ih2 _ _ _ _⟩
+
+theorem declServices_notFile {fi : Nat} {f : FileD} : ∀ d ∈ declServices fi f, NotFile d := by
+  intro d hd
+  simp only [declServices, List.mem_flatten, List.mem_map] at hd
+  obtain ⟨l, ⟨⟨i, s⟩, _, rfl⟩, hd⟩ := hd
+  simp only [declService, List.mem_cons, List.mem_map] at hd
+  rcases hd with rfl | ⟨⟨j, m⟩, _, rfl⟩ <;> simp [NotFile]
+
+/-- no declaration carries the "no entity" reference -/
+theorem decl_ne_noRef (w : World) (d : Decl) (hd : d ∈ declared w) : d.ref ≠ noRef := by
+  obtain ⟨k, f, _, hm⟩ := mem_declFrom w.files 0 d hd
+  intro e
+  have hp : d.ref.path = [999999] := by rw [e]; rfl
+  by_cases hk : d.kind = .file
+  · -- the file's own declaration has the empty path; nothing else has kind `file`
+    have hall : ∀ x ∈ declFile (0 + k) f, x.kind = .file → x.ref.path = [] := by
+      simp only [declFile, declFileHead, List.cons_append, List.forall_mem_cons, List.forall_mem_append]
+      exact ⟨fun _ => trivial, ⟨⟨fun x hx h => absurd h (declEnums_notFile x hx),
+        fun x hx h => absurd h (declFields_notFile (by decide) x hx)⟩,
+        fun x hx h => absurd h (declMsgs_notFile _ _ _ _ _ x hx)⟩,
+        fun x hx h => absurd h (declServices_notFile x hx)⟩
+    have := hall d hm hk
+    rw [hp] at this; simp at this
+  · have h1 := C08_designated (0 + k) f d hm hk
+    rw [hp] at h1
+    simp [fileChildAt] at h1
+
+theorem imp_aux (X : Ref) (own : Nat) :
+    (if ¬X = noRef ∧ ¬X.file = own then [X.file] else []) =
+      (match (if X = noRef then none else some X.file) with
+       | some d => if d = own then [] else [d]
+       | none => []) := by
+  by_cases h1 : X = noRef <;> by_cases h2 : X.file = own <;> simp [h1, h2]
+
+/-- the declarative type's imports are exactly the Φ checker's "other files defining the types the
+    field references", provided its own singular enum / message reference resolves -/
+theorem typeImports_spec (w : World) (own : Nat) (fd : FieldD)
+    (h14 : fd.label ≠ 3 → fd.type = 14 → declaredAs w fd.typeName .enum ≠ noRef)
+    (h11 : fd.label ≠ 3 → fd.type = 11 → declaredAs w fd.typeName .msg ≠ noRef) :
+    typeImports own (specType w fd) = specFieldFiles w own fd := by
+  unfold specType specFieldFiles definingFile
+  by_cases h3 : fd.label = 3
+  · simp only [h3, if_true]
+    by_cases e14 : fd.type = 14
+    · have e11 : ¬ ((14 : Nat) = 11) := by decide
+      simp [e14, e11, typeImports, Elem.ref]; exact imp_aux _ _
+    · by_cases e11 : fd.type = 11
+      · by_cases hm : isMapEntryFqn w fd.typeName = true
+        · have e1114 : ¬ ((11 : Nat) = 14) := by decide
+          simp only [e11, e1114, hm, if_true, if_false, decide_true, Bool.and_self]
+          cases hat : w.msgAt (declaredAs w fd.typeName .msg) with
+          | none => simp [typeImports, Elem.ref]
+          | some hn =>
+            obtain ⟨hh, n⟩ := hn
+            simp only
+            cases hf : hh.fields with
+            | nil => simp [typeImports, Elem.ref]
+            | cons k r =>
+              cases r with
+              | nil => simp [typeImports, Elem.ref]
+              | cons v rest =>
+                simp only [typeImports, specElem]
+                by_cases v14 : v.type = 14
+                · have : ¬ ((14 : Nat) = 11) := by decide
+                  simp [v14, this, Elem.ref]; exact imp_aux _ _
+                · by_cases v11 : v.type = 11
+                  · have : ¬ ((11 : Nat) = 14) := by decide
+                    simp [v11, this, Elem.ref]; exact imp_aux _ _
+                  · simp [v14, v11, Elem.ref]
+        · have e1114 : ¬ ((11 : Nat) = 14) := by decide
+          simp [e11, e1114, hm, typeImports, Elem.ref]; exact imp_aux _ _
+      · simp [e14, e11, typeImports, Elem.ref]
+  · simp only [h3, if_false, Bool.false_and]
+    by_cases e14 : fd.type = 14
+    · have e11 : ¬ ((14 : Nat) = 11) := by decide
+      have := h14 h3 e14
+      simp [e14, e11, typeImports, this]
+    · by_cases e11 : fd.type = 11
+      · have e1114 : ¬ ((11 : Nat) = 14) := by decide
+        have := h11 h3 e11
+        simp [e11, e1114, typeImports, this]
+      · simp [e14, e11, typeImports]
+
+end Pgs.AST
+
+namespace Pgs.AST
+
+theorem allFields_forall {P : FieldD → Prop} (fi : Nat) : ∀ (ms : Msgs) (p : List Nat) (tag i : Nat),
+    AllFields P ms → ∀ x ∈ fieldsOfMsgs fi p tag i ms, P x.2 := by
+  intro ms
+  induction ms with
+  | nil => intro p tag i _ x hx; simp [fieldsOfMsgs] at hx
+  | cons h nested rest ih1 ih2 =>
+    intro p tag i ⟨a, b, c⟩ x hx
+    simp only [fieldsOfMsgs, List.mem_append, List.mem_map] at hx
+    rcases hx with (⟨q, hq, rfl⟩ | hx) | hx
+    · exact a q.2 (List.of_mem_zip hq).2
+    · exact ih1 _ _ _ b x hx
+    · exact ih2 _ _ _ c x hx
+
+/-- on a valid request every field's and extension's own type reference names a declaration -/
+theorem owner_resolves (w : World) (hv : Valid w) : ∀ x ∈ allFields w ++ allExts 0 w.files,
+    FieldRes w (declared w) x.2 := by
+  intro x hx
+  rcases List.mem_append.mp hx with hx | hx
+  · simp only [allFields, List.mem_flatten, List.mem_map] at hx
+    obtain ⟨l, ⟨⟨fi, f⟩, hf, rfl⟩, hx⟩ := hx
+    have hfile := idx_mem _ _ _ hf
+    obtain ⟨pre, post, e, hl⟩ := split_at_index _ _ _ hfile
+    have := allFields_forall fi f.msgs [] 4 0 (hv.fields pre f post e) x hx
+    refine this.mono ?_
+    intro d hd
+    unfold declared
+    rw [e, show pre ++ f :: post = (pre ++ [f]) ++ post by simp, declFrom_append]
+    exact List.mem_append_left _ hd
+  · exact (hv.exts x hx).1
+
+/-- **C04 (imports of a field / extension, declaratively)**: exactly the other files that define the
+    types it references — its own enum / message type, or for a map field the value type of its
+    entry — as the Φ checker states it. -/
+theorem C04_field_files (w : World) (hv : Valid w) (g : Graph) (hg : hydrate w = .ok g) :
+    ∀ x ∈ allFields w ++ allExts 0 w.files, fieldImports g x.1 = specFieldFiles w x.1.file x.2 := by
+  intro x hx
+  rw [C04_field_imports w hv g hg x hx]
+  have hres := owner_resolves w hv x hx
+  apply typeImports_spec
+  · intro _ h14
+    obtain ⟨d, hd, _, _, e⟩ := C03_target_declared w hv _ _ (hres.enum h14)
+    rw [e]; exact decl_ne_noRef w d hd
+  · intro _ h11
+    obtain ⟨d, hd, hk, hkind, _⟩ := hres.msg h11
+    obtain ⟨d', hd', _, _, e⟩ := C03_target_declared w hv _ _ ⟨d, hd, hk, hkind⟩
+    rw [e]; exact decl_ne_noRef w d' hd'
 
 end Pgs.AST
